@@ -105,7 +105,10 @@ def run_case(case, prefix=None):
             nitems = len(bufs)
             needs_ack_call = mode in ("aa", "ackpl") and not ana
         bound = nitems * esb.send_bound_ns(rate, aw, crc, maxlen, arc, ardc, fr, needs_ack_call)
-        bound = int(bound * 1.05) + nitems * (1 + fr) * 3 * MS
+        # allowance for the MCU: a send()/resend() cycle costs about a dozen SPI transactions besides the polling
+        mcu = case.get("mcu") or {}
+        spi_ns = (mcu.get("spi", 20) + 33) * 1000 * (1 + mcu.get("jit", 0) / 100.0)
+        bound = int(bound * 1.05) + nitems * (1 + fr) * int(16 * spi_ns + 1 * MS)
         sim.horizon = sim.now + 20 * bound + 50 * MS
         try:
             if kind == "resend":
